@@ -25,6 +25,20 @@ DESC = {
                 "a VLoss with a 2-D table on a negative rail"),
  "C11-agent1": ("C11", "PLoad.__init__ stores pwrs without abs()",
                 "a PLoad constructed with negative pwrs, visible in an unlisted phase"),
+ "C12-agent1": ("C12", "save(): components below a PMux are written with their PARENT's applicable limits (e/c mix-up in the PMux block)",
+                "a system with a PMux and a non-default limit on a component below it"),
+ "C13-agent1": ("C13", "generic TOML loader uses isinstance(pval, tuple(typ)) instead of type(pval) in typ: bool passes for int/float keys",
+                "a TOML boolean on a numeric key of a kind using the generic loader"),
+ "C14-agent1": ("C14", "del_comp(del_childs=False) re-links the children to EVERY parent of the deleted node",
+                "deleting a PMux (>= 2 inputs) that has children with del_childs=False: a non-mux child ends up with several parents"),
+ "C15-agent1": ("C15", "change_comp: the same-name rail check moved after the registry updates",
+                "a rejected same-name change_comp whose rail collides with an existing name/rail or with its own name"),
+ "C16-agent1": ("C16", "del_comp(del_childs=False) rebuilds a re-linked child's declared input order from graph predecessors (newest edge first)",
+                "deleting a non-first intermediate input of a PMux (or any input of a >= 3-input mux) with del_childs=False"),
+ "C17-agent1": ("C17", "PLoad._solv_inp_curr uses phase_conf.setdefault(phase, pwrs): solve() writes into the system's (and the caller's) phase dict",
+                "phases, a PLoad with a partial phase table on a LIVE supply, an analysis over the omitted phase, then phases()/save() compared"),
+ "C18-agent1": ("C18", "batt_life solves BEFORE writing the present battery state into the Source (current lags one step)",
+                "a battery whose voltage/impedance changes between steps or whose probed state differs from the declared Source"),
 }
 
 res = {}
